@@ -1,5 +1,120 @@
 import WuffsVerif.Common.Line
-/-! Line driver for C18 — stub, not built yet. -/
-open WuffsVerif.Line
+import WuffsVerif.Model.Jpeg.Encoder
+import WuffsVerif.Model.Jpeg.Dct
+import WuffsVerif.Model.Jpeg.Spec
+/-! Line driver for C18 (lib/lowleveljpeg).  Stateful: one `Encoder`.
 
-def main : IO Unit := runPure (fun _ => "bad-op")
+  case <text>                                  -> ok                (fresh zero-value Encoder)
+  reset <wfail> <colorType> <w> <h> <q0> <q1>  -> ok <hex> | err <class> | panic
+        q0/q1: 64 bytes hex each, or `- -` for nil options
+  add <N> <wfail> <block>{N} | add <N> <wfail> nil
+        block = 64 comma-separated int16        -> ok <hex> | err <class> | panic
+  state                                        -> st <hasErr> <colorType> <prevDC0> <prevDC1> <prevDC2> <numAddsRemaining> <bitsV> <bitsN>
+  setadds <n>                                  -> ok                (VerifSetNumAddsRemaining)
+  div <a> <b>                                  -> v <int>
+  fdct <64 bytes hex>                          -> v <64 comma-separated ints>
+  idct <64 comma-separated ints>               -> v <64 bytes hex>
+  stdquant <which> <quality>                   -> v <64 bytes hex>
+  specdecode <hex>                             -> none | ok <w> <h> <id:h:v:tq,…> <qtab hex,…> <block;block;…>
+-/
+open WuffsVerif WuffsVerif.Line WuffsVerif.Jpeg
+
+def parseInts (s : String) : Option (Array Int) :=
+  ((s.splitOn ",").mapM String.toInt?).map List.toArray
+
+def showInts (l : List Int) : String := ",".intercalate (l.map toString)
+
+def natsToHex (a : List Nat) : String := toHex (a.map UInt8.ofNat)
+
+def parseQuant (s : String) : Option Quant :=
+  (fromHex s).map (fun l => (l.map UInt8.toNat).toArray)
+
+def errWord : Err → String
+  | .badAddNForColorType => "bad-addn"
+  | .badArgument => "bad-argument"
+  | .invalidBlockI16 => "invalid-block"
+  | .previouslyReturnedError => "previously-returned"
+  | .tooManyAddNCalls => "too-many"
+  | .write => "write"
+
+def showRes : Res → String
+  | .ok w => "ok " ++ natsToHex w.toList
+  | .err e => "err " ++ errWord e
+  | .panic => "panic"
+
+def parseBool (s : String) : Option Bool :=
+  if s == "0" then some false else if s == "1" then some true else none
+
+def showDecoded (d : Spec.Decoded) : String :=
+  let comps := ",".intercalate (d.comps.map (fun c => s!"{c.id}:{c.h}:{c.v}:{c.tq}"))
+  let qt := ",".intercalate (d.qtabs.map natsToHex)
+  let blocks := ";".intercalate (d.blocks.map showInts)
+  s!"ok {d.width} {d.height} {comps} {qt} {if d.blocks.isEmpty then "-" else blocks}"
+
+def c18Step (e : Encoder) (l : List String) : Encoder × String :=
+  match l with
+  | "case" :: _ => ({}, "ok")
+  | ["reset", wf, ct, w, h, q0, q1] =>
+    match parseBool wf, ct.toNat?, w.toInt?, h.toInt? with
+    | some wf, some ct, some w, some h =>
+      let qs : Option (Option (Quant × Quant)) :=
+        if q0 == "-" && q1 == "-" then some none
+        else match parseQuant q0, parseQuant q1 with
+          | some a, some b => if a.size == 64 && b.size == 64 then some (some (a, b)) else none
+          | _, _ => none
+      match qs with
+      | none => (e, "bad-op")
+      | some qs =>
+        let (e, r) := reset e wf ct w h qs
+        (e, showRes r)
+    | _, _, _, _ => (e, "bad-op")
+  | "add" :: n :: wf :: blocks =>
+    match n.toNat?, parseBool wf with
+    | some n, some wf =>
+      if n != 1 && n != 3 && n != 6 then (e, "bad-op")
+      else if blocks == ["nil"] then
+        let (e, r) := add e n wf none
+        (e, showRes r)
+      else
+        match blocks.mapM parseInts with
+        | some bs =>
+          if bs.length != n || bs.any (fun b => b.size != 64) then (e, "bad-op")
+          else
+            let (e, r) := add e n wf (some bs)
+            (e, showRes r)
+        | none => (e, "bad-op")
+    | _, _ => (e, "bad-op")
+  | ["state"] =>
+    (e, s!"st {if e.hasReturnedError then 1 else 0} {e.colorType} {e.prevDC0} {e.prevDC1} {e.prevDC2} {e.numAddsRemaining} {e.bitsV} {e.bitsN}")
+  | ["setadds", n] =>
+    match n.toNat? with
+    | some n => ({ e with numAddsRemaining := n }, "ok")
+    | none => (e, "bad-op")
+  | ["div", a, b] =>
+    match a.toInt?, b.toInt? with
+    | some a, some b => if b == 0 then (e, "bad-op") else (e, s!"v {div a b}")
+    | _, _ => (e, "bad-op")
+  | ["fdct", h] =>
+    match fromHex h with
+    | some bs =>
+      if bs.length != 64 then (e, "bad-op")
+      else (e, "v " ++ showInts (Dct.forwardDCT (bs.map UInt8.toNat).toArray).toList)
+    | none => (e, "bad-op")
+  | ["idct", cs] =>
+    match parseInts cs with
+    | some a => if a.size != 64 then (e, "bad-op") else (e, "v " ++ natsToHex (Dct.inverseDCT a).toList)
+    | none => (e, "bad-op")
+  | ["stdquant", which, quality] =>
+    match which.toNat?, quality.toInt? with
+    | some w, some q => (e, "v " ++ natsToHex (setToStandardValues w q).toList)
+    | _, _ => (e, "bad-op")
+  | ["specdecode", h] =>
+    match fromHex h with
+    | some bs =>
+      match Spec.decode (bs.map UInt8.toNat) with
+      | some d => (e, showDecoded d)
+      | none => (e, "none")
+    | none => (e, "bad-op")
+  | _ => (e, "bad-op")
+
+def main : IO Unit := run ({} : Encoder) c18Step
